@@ -64,13 +64,13 @@ theorem c18e_agreeInside_of_sameInside {root : Comps} {fs₁ fs₂ : FS} (h : sa
 /-! ## (b) congruence of the rooted probes -/
 
 theorem c18e_rootProbe_congr_agree (fs₁ fs₂ : FS) (root : Comps) (hag : agreeInside root fs₁ fs₂) :
-    ∀ (fuel : Nat) (cur : Comps) (todo : List String), root <+: cur →
-      fs₁.rootProbe root fuel cur todo = fs₂.rootProbe root fuel cur todo := by
+    ∀ (fuel : Nat) {links : Nat} (cur : Comps) (todo : List String), root <+: cur →
+      fs₁.rootProbe root fuel links cur todo = fs₂.rootProbe root fuel links cur todo := by
   intro fuel
   induction fuel with
-  | zero => intro cur todo _; rfl
+  | zero => intro links cur todo _; rfl
   | succ n ih =>
-    intro cur todo hp
+    intro links cur todo hp
     cases todo with
     | nil => rfl
     | cons c rest =>
@@ -86,12 +86,14 @@ theorem c18e_rootProbe_congr_agree (fs₁ fs₂ : FS) (root : Comps) (hag : agre
           · rfl
           · split
             · rfl
-            · exact ih _ _ hp
+            · split
+              · rfl
+              · exact ih _ _ hp
           · exact ih _ _ (prefix_append_right hp _)
 
 theorem c18e_rootProbe_congr {root : Comps} {fs₁ fs₂ : FS} (h : sameInside root fs₁ fs₂)
-    (fuel : Nat) (cur : Comps) (todo : List String) (hp : root <+: cur) :
-    fs₁.rootProbe root fuel cur todo = fs₂.rootProbe root fuel cur todo :=
+    (fuel : Nat) (cur : Comps) (todo : List String) (hp : root <+: cur) {links : Nat} :
+    fs₁.rootProbe root fuel links cur todo = fs₂.rootProbe root fuel links cur todo :=
   c18e_rootProbe_congr_agree fs₁ fs₂ root (c18e_agreeInside_of_sameInside h) fuel cur todo hp
 
 theorem c18e_rootExists_congr {root : Comps} {fs₁ fs₂ : FS} (h : sameInside root fs₁ fs₂)
@@ -99,8 +101,8 @@ theorem c18e_rootExists_congr {root : Comps} {fs₁ fs₂ : FS} (h : sameInside 
   rw [rootExists_eq, rootExists_eq, c18e_rootProbe_congr h linkFuel root rel (List.prefix_refl _)]
 
 theorem c18e_rootWalk_congr {root : Comps} {fs₁ fs₂ : FS} (h : sameInside root fs₁ fs₂)
-    (fuel : Nat) (cur : Comps) (todo : List String) (hp : root <+: cur) :
-    fs₁.rootWalk root fuel cur todo = fs₂.rootWalk root fuel cur todo :=
+    (fuel : Nat) (cur : Comps) (todo : List String) (hp : root <+: cur) {links : Nat} :
+    fs₁.rootWalk root fuel links cur todo = fs₂.rootWalk root fuel links cur todo :=
   rootWalk_congr fs₁ fs₂ root (c18e_agreeInside_of_sameInside h) fuel cur todo hp
 
 /-- the listing of a directory inside the root only looks at the entries inside the root -/
@@ -130,7 +132,7 @@ theorem c18e_dirNames_congr {root : Comps} {fs₁ fs₂ : FS} (h : sameInside ro
 theorem c18e_rootReadDir_congr {root : Comps} {fs₁ fs₂ : FS} (h : sameInside root fs₁ fs₂)
     (rel : List String) : fs₁.rootReadDir root rel = fs₂.rootReadDir root rel := by
   rw [rootReadDir_eq, rootReadDir_eq, c18e_rootWalk_congr h linkFuel root rel (List.prefix_refl _)]
-  cases hw : fs₂.rootWalk root linkFuel root rel with
+  cases hw : fs₂.rootWalk root linkFuel 0 root rel with
   | error e => rfl
   | ok real =>
     have hin := rootWalk_inside fs₂ root _ _ _ _ hw (List.prefix_refl _)
@@ -168,14 +170,15 @@ theorem c18e_resolve_nil (fs : FS) (fuel : Nat) (done : Comps) :
     fs.resolve (fuel + 1) done [] = some done := rfl
 
 /-- a successful rooted walk is a successful unrooted walk with the same answer (same fuel) -/
-theorem c18e_resolve_of_rootWalk (fs : FS) (root : Comps) : ∀ (fuel : Nat) (cur : Comps)
-    (todo : List String) (real : Comps), fs.rootWalk root fuel cur todo = .ok real →
+theorem c18e_resolve_of_rootWalk (fs : FS) (root : Comps) : ∀ (fuel : Nat) {links : Nat}
+    (cur : Comps) (todo : List String) (real : Comps),
+    fs.rootWalk root fuel links cur todo = .ok real →
       fs.resolve fuel cur todo = some real := by
   intro fuel
   induction fuel with
-  | zero => intro cur todo real h; rw [rootWalk_zero] at h; cases h
+  | zero => intro links cur todo real h; rw [rootWalk_zero] at h; cases h
   | succ n ih =>
-    intro cur todo real h
+    intro links cur todo real h
     cases todo with
     | nil => rw [rootWalk_nil] at h; cases h; rfl
     | cons c rest =>
@@ -202,7 +205,10 @@ theorem c18e_resolve_of_rootWalk (fs : FS) (root : Comps) : ∀ (fuel : Nat) (cu
               simp only [] at h ⊢
               by_cases ha : isAbsPath t = true
               · rw [if_pos ha] at h; cases h
-              · rw [if_neg ha] at h ⊢; exact ih _ _ _ h
+              · rw [if_neg ha] at h ⊢
+                split at h
+                · cases h
+                · exact ih _ _ _ h
             | file d => simp only [] at h ⊢; exact ih _ _ _ h
             | dir => simp only [] at h ⊢; exact ih _ _ _ h
 
@@ -257,7 +263,7 @@ theorem c18e_resolve_descend {fs : FS} {root : Comps} (h : RootPlain fs root) (f
     successful `EvalSymlinks`-style resolution of the absolute path with the same answer -/
 theorem c18e_resolve_of_rootWalk_abs {fs : FS} {root : Comps} (h : RootPlain fs root)
     (fuel : Nat) (rel : List String) (real : Comps)
-    (hw : fs.rootWalk root fuel root rel = .ok real) (fuel' : Nat)
+    {links : Nat} (hw : fs.rootWalk root fuel links root rel = .ok real) (fuel' : Nat)
     (hf : fuel + root.length ≤ fuel') :
     fs.resolve fuel' [] (root ++ rel) = some real := by
   apply c18e_resolve_mono fs (fuel + root.length) fuel' _ _ _ _ hf
@@ -267,14 +273,14 @@ theorem c18e_resolve_of_rootWalk_abs {fs : FS} {root : Comps} (h : RootPlain fs 
 /-- while the rooted walk succeeds, the unrooted resolution (whatever its fuel) only looks at
     entries inside the root -/
 theorem c18e_resolve_congr (fs₁ fs₂ : FS) (root : Comps) (hag : agreeInside root fs₁ fs₂) :
-    ∀ (fuel : Nat) (cur : Comps) (todo : List String) (real : Comps),
-      fs₁.rootWalk root fuel cur todo = .ok real → root <+: cur →
+    ∀ (fuel : Nat) {links : Nat} (cur : Comps) (todo : List String) (real : Comps),
+      fs₁.rootWalk root fuel links cur todo = .ok real → root <+: cur →
       ∀ fuel', fs₁.resolve fuel' cur todo = fs₂.resolve fuel' cur todo := by
   intro fuel
   induction fuel with
-  | zero => intro cur todo real h; rw [rootWalk_zero] at h; cases h
+  | zero => intro links cur todo real h; rw [rootWalk_zero] at h; cases h
   | succ n ih =>
-    intro cur todo real h hp fuel'
+    intro links cur todo real h hp fuel'
     cases fuel' with
     | zero => rfl
     | succ m =>
@@ -305,7 +311,10 @@ theorem c18e_resolve_congr (fs₁ fs₂ : FS) (root : Comps) (hag : agreeInside 
                 simp only [] at h ⊢
                 by_cases ha : isAbsPath t = true
                 · rw [if_pos ha] at h; cases h
-                · simp only [if_neg ha] at h ⊢; exact ih _ _ _ h hp m
+                · simp only [if_neg ha] at h ⊢
+                  split at h
+                  · cases h
+                  · exact ih _ _ _ h hp m
               | file d => simp only [] at h ⊢; exact ih _ _ _ h (prefix_append_right hp [c]) m
               | dir => simp only [] at h ⊢; exact ih _ _ _ h (prefix_append_right hp [c]) m
 
@@ -330,7 +339,7 @@ theorem c18e_resolve_through_congr (fs₁ fs₂ : FS) (rel : List String) :
 /-- `EvalSymlinks` of a path that opens beneath the root depends on the inside of the root only -/
 theorem c18e_evalSymlinks_congr {root : Comps} {fs₁ fs₂ : FS} (h : sameInside root fs₁ fs₂)
     (hp₁ : RootPlain fs₁ root) (hp₂ : RootPlain fs₂ root) (rel : List String) (real : Comps)
-    (hw : fs₁.rootWalk root linkFuel root rel = .ok real) :
+    (hw : fs₁.rootWalk root linkFuel 0 root rel = .ok real) :
     fs₁.evalSymlinks (root ++ rel) = fs₂.evalSymlinks (root ++ rel) := by
   unfold FS.evalSymlinks
   apply c18e_resolve_through_congr fs₁ fs₂ rel root [] (c18e_noLinksAlong_root hp₁)
@@ -344,11 +353,11 @@ theorem c18e_evalSymlinks_congr {root : Comps} {fs₁ fs₂ : FS} (h : sameInsid
 theorem c18e_loadFile_ok {fs : FS} {cfg : RootCfg} {path : Comps} {id : String} {docs : List Val}
     (h : loadFile fs cfg path id = .ok docs) :
     path = cfg.root ++ relTo cfg.root path ∧
-      ∃ real, fs.rootWalk cfg.root linkFuel cfg.root (relTo cfg.root path) = .ok real := by
+      ∃ real, fs.rootWalk cfg.root linkFuel 0 cfg.root (relTo cfg.root path) = .ok real := by
   rw [loadFile_eq] at h
   split at h
   · rw [rootOpen_eq] at h
-    cases hw : fs.rootWalk cfg.root linkFuel cfg.root (relTo cfg.root path) with
+    cases hw : fs.rootWalk cfg.root linkFuel 0 cfg.root (relTo cfg.root path) with
     | error e => rw [hw] at h; cases h
     | ok real =>
       refine ⟨?_, real, rfl⟩
@@ -366,7 +375,7 @@ theorem c18e_loadFile_ok {fs : FS} {cfg : RootCfg} {path : Comps} {id : String} 
           rw [hrel] at hh hw
           simp only [List.head?_cons, Option.some.injEq] at hh
           subst hh
-          have : fs.rootWalk cfg.root linkFuel cfg.root (".." :: rest) = .error .other :=
+          have : fs.rootWalk cfg.root linkFuel 0 cfg.root (".." :: rest) = .error .other :=
             rootWalk_dotdot_at_root fs cfg.root 4095 rest
           rw [this] at hw
           cases hw
@@ -444,7 +453,7 @@ theorem c18e_load_congr {fs₁ fs₂ : FS} {cfg : RootCfg} (h : sameInside cfg.r
         loadFile fs₂ cfg path (fileIdOf childId path) := by
       rw [loadFile_eq, loadFile_eq, rootOpen_eq, rootOpen_eq,
         c18e_rootWalk_congr h linkFuel cfg.root _ (List.prefix_refl _)]
-      cases hw : fs₂.rootWalk cfg.root linkFuel cfg.root (relTo cfg.root path) with
+      cases hw : fs₂.rootWalk cfg.root linkFuel 0 cfg.root (relTo cfg.root path) with
       | error e => rfl
       | ok real =>
         have hin := rootWalk_inside fs₂ cfg.root _ _ _ _ hw (List.prefix_refl _)
@@ -470,7 +479,7 @@ theorem c18e_loadFile_congr {fs₁ fs₂ : FS} {cfg : RootCfg} (h : sameInside c
     (path : Comps) (id : String) : loadFile fs₁ cfg path id = loadFile fs₂ cfg path id := by
   rw [loadFile_eq, loadFile_eq, rootOpen_eq, rootOpen_eq,
     c18e_rootWalk_congr h linkFuel cfg.root _ (List.prefix_refl _)]
-  cases hw : fs₂.rootWalk cfg.root linkFuel cfg.root (relTo cfg.root path) with
+  cases hw : fs₂.rootWalk cfg.root linkFuel 0 cfg.root (relTo cfg.root path) with
   | error e => rfl
   | ok real =>
     have hin := rootWalk_inside fs₂ cfg.root _ _ _ _ hw (List.prefix_refl _)
@@ -601,7 +610,7 @@ theorem c18e_exFS_load_a (id : String) :
   have h1 : supportedExts.contains (extOf (baseOf ["w", "r", "a.yaml"])) = true := by
     rw [extOf_eq]; decide
   rw [h1, if_pos rfl, rootOpen_eq]
-  have h2 : exFS.rootWalk ["w", "r"] linkFuel ["w", "r"] (relTo ["w", "r"] ["w", "r", "a.yaml"]) =
+  have h2 : exFS.rootWalk ["w", "r"] linkFuel 0 ["w", "r"] (relTo ["w", "r"] ["w", "r", "a.yaml"]) =
       .ok ["w", "r", "a.yaml"] := by decide
   simp only [h2]
   rfl
